@@ -337,9 +337,9 @@ func createStrFunctions() { //nolint:funlen // we do have quite a few, yes.
 	strFn.Callback = func(_ any, _ string, args []object.Object) object.Object {
 		inp := args[0].(object.String).Value
 		asInt := len(args) == 2 && args[1].(object.Boolean).Value
+		object.MustBeOk(utf8.RuneCountInString(inp)) // check before allocating, not after.
 		gorunes := []rune(inp)
 		l := len(gorunes)
-		object.MustBeOk(l)
 		runes := make([]object.Object, l)
 		for i, r := range gorunes {
 			if asInt {
@@ -375,9 +375,14 @@ func createStrFunctions() { //nolint:funlen // we do have quite a few, yes.
 		if len(args) == 2 {
 			sep = args[1].(object.String).Value
 		}
+		// check before allocating the parts, not after.
+		if sep == "" {
+			object.MustBeOk(utf8.RuneCountInString(inp))
+		} else {
+			object.MustBeOk(strings.Count(inp, sep) + 1)
+		}
 		parts := strings.Split(inp, sep)
 		l := len(parts)
-		object.MustBeOk(l)
 		strs := make([]object.Object, l)
 		for i, p := range parts {
 			strs[i] = object.String{Value: p}
